@@ -187,6 +187,18 @@ func mkval(t *Term, k types.BasicKind) value {
 
 // equalsT is equals() returning a term; it handles symbolic leaves.
 func equalsT(t types.Type, x, y value) *Term {
+	if lx, ok := x.(*lazyIface); ok {
+		if lx.resolved == nil {
+			panic(engineError{"comparison of an unresolved lazy interface"})
+		}
+		x = *lx.resolved
+	}
+	if ly, ok := y.(*lazyIface); ok {
+		if ly.resolved == nil {
+			panic(engineError{"comparison of an unresolved lazy interface"})
+		}
+		y = *ly.resolved
+	}
 	switch xv := x.(type) {
 	case sym:
 		yt, ok := termOf(y)
